@@ -49,6 +49,134 @@ class Unrecognised(Exception):
     pass
 
 
+OP_CLASSES = [
+    ("torchtree.inference.mcmc.operator", "ScalerOperator"),
+    ("torchtree.inference.mcmc.operator", "SlidingWindowOperator"),
+    ("torchtree.inference.mcmc.operator", "DirichletOperator"),
+    ("torchtree.inference.mcmc.gmrf_block_updating", "GMRFPiecewiseCoalescentBlockUpdatingOperator"),
+    ("torchtree.inference.hmc.operator", "HMCOperator"),
+]
+CTOR_CLASSES = OP_CLASSES + [
+    ("torchtree.inference.mcmc.operator", "MCMCOperator"),
+    ("torchtree.inference.hmc.adaptation", "AdaptiveStepSize"),
+    ("torchtree.inference.hmc.adaptation", "DualAveragingStepSize"),
+    ("torchtree.inference.hmc.adaptation", "MassMatrixAdaptor"),
+    ("torchtree.inference.hmc.integrator", "LeapfrogIntegrator"),
+]
+
+
+def sentinel_of(e):
+    """a constant expression denoting +inf / -inf / nan (possibly wrapped in torch.tensor), else None"""
+    if isinstance(e, ast.Call):
+        f = dotted(e.func)
+        if f == "torch.tensor" and e.args:
+            return sentinel_of(e.args[0])
+        if f == "float" and e.args and isinstance(e.args[0], ast.Constant) and isinstance(e.args[0].value, str):
+            v = e.args[0].value.strip().lower()
+            return {"inf": "posInf", "+inf": "posInf", "infinity": "posInf", "-inf": "negInf", "-infinity": "negInf",
+                    "nan": "nan"}.get(v)
+        return None
+    d = dotted(e)
+    if d in ("torch.inf", "math.inf", "np.inf", "numpy.inf"):
+        return "posInf"
+    if d in ("torch.nan", "math.nan", "np.nan", "numpy.nan"):
+        return "nan"
+    if isinstance(e, ast.UnaryOp) and isinstance(e.op, ast.USub):
+        s = sentinel_of(e.operand)
+        return {"posInf": "negInf", "negInf": "posInf", "nan": "nan"}.get(s)
+    return None
+
+
+def loop_tests(test, var="hastings_ratio"):
+    """which sentinel values of `hastings_ratio` the first test of the decision block sends to rejection"""
+    if isinstance(test, ast.BoolOp) and isinstance(test.op, ast.Or):
+        out = []
+        for v in test.values:
+            out += loop_tests(v, var)
+        return out
+    if isinstance(test, ast.Call) and len(test.args) == 1 and dotted(test.args[0]) == var:
+        f = dotted(test.func)
+        if f == "torch.isinf":
+            return ["posInf", "negInf"]
+        if f == "torch.isneginf":
+            return ["negInf"]
+        if f == "torch.isposinf":
+            return ["posInf"]
+        if f == "torch.isnan":
+            return ["nan"]
+        if f == "torch.isfinite":
+            raise Unrecognised("isfinite without not")
+    if isinstance(test, ast.UnaryOp) and isinstance(test.op, ast.Not) and isinstance(test.operand, ast.Call) \
+            and dotted(test.operand.func) == "torch.isfinite" and dotted(test.operand.args[0]) == var:
+        return ["posInf", "negInf", "nan"]
+    if isinstance(test, ast.Compare) and len(test.ops) == 1 and isinstance(test.ops[0], ast.Eq) and dotted(test.left) == var:
+        s = sentinel_of(test.comparators[0])
+        if s in ("posInf", "negInf"):
+            return [s]
+    raise Unrecognised("failure test of the run loop: " + ast.unparse(test))
+
+
+def class_node(mod, cname):
+    import importlib
+
+    cls = getattr(importlib.import_module(mod), cname)
+    return ast.parse(textwrap.dedent(inspect.getsource(cls))).body[0]
+
+
+def operator_failure_returns():
+    rows = []
+    for mod, cname in OP_CLASSES:
+        cn = class_node(mod, cname)
+        steps = [n for n in cn.body if isinstance(n, ast.FunctionDef) and n.name == "_step"]
+        if len(steps) != 1:
+            raise Unrecognised(f"{cname}._step missing")
+        found = []
+        for r in ast.walk(steps[0]):
+            if isinstance(r, ast.Return) and r.value is not None:
+                sv = sentinel_of(r.value)
+                if sv and sv not in found:
+                    found.append(sv)
+        rows.append((cname, found))
+    return rows
+
+
+def mutable_defaults():
+    """constructor arguments whose default is a mutable object, and whether the constructor body mutates it
+    (directly or through `self.<attr> = <arg>` aliases): append/extend/insert/update/add/+=/item assignment"""
+    rows = []
+    for mod, cname in CTOR_CLASSES:
+        cn = class_node(mod, cname)
+        inits = [n for n in cn.body if isinstance(n, ast.FunctionDef) and n.name == "__init__"]
+        if not inits:
+            continue
+        fn = inits[0]
+        args = fn.args.args
+        defaults = [None] * (len(args) - len(fn.args.defaults)) + list(fn.args.defaults)
+        pairs = list(zip(args, defaults)) + list(zip(fn.args.kwonlyargs, fn.args.kw_defaults))
+        for a, dflt in pairs:
+            if dflt is None or not isinstance(dflt, (ast.List, ast.Dict, ast.Set, ast.Call, ast.ListComp, ast.DictComp)):
+                continue
+            names = {a.arg}
+            for st in ast.walk(fn):  # aliases self.x = arg
+                if isinstance(st, ast.Assign) and dotted(st.value) in names:
+                    for t in st.targets:
+                        if dotted(t):
+                            names.add(dotted(t))
+            mutated = False
+            for st in ast.walk(fn):
+                if isinstance(st, ast.Call) and isinstance(st.func, ast.Attribute) and dotted(st.func.value) in names \
+                        and st.func.attr in ("append", "extend", "insert", "update", "add", "setdefault", "pop", "remove", "clear"):
+                    mutated = True
+                if isinstance(st, ast.AugAssign) and dotted(st.target) in names:
+                    mutated = True
+                if isinstance(st, ast.Assign):
+                    for t in st.targets:
+                        if isinstance(t, ast.Subscript) and dotted(t.value) in names:
+                            mutated = True
+            rows.append((cname, a.arg, ast.unparse(dflt), mutated))
+    return rows
+
+
 def dotted(e):
     if isinstance(e, ast.Attribute):
         b = dotted(e.value)
@@ -72,6 +200,7 @@ def kw(call, name):
 def translate(repo=None):
     notes, initial, order = [], [], []
     decide_ok = accept_ok = False
+    tests, op_returns, mdefaults = [], [], []
     try:
         from torchtree.inference.mcmc.mcmc import MCMC
 
@@ -115,8 +244,10 @@ def translate(repo=None):
             if src == "hastings_ratio = operator.step()":
                 order.append(".propose")
                 continue
-            if isinstance(st, ast.If) and ast.unparse(st.test) == "torch.isinf(hastings_ratio)":
+            if isinstance(st, ast.If) and "hastings_ratio" in ast.unparse(st.test) and ".decide" not in order \
+                    and ".propose" in order:
                 decide_ok = ast.dump(st) == ast.dump(ast.parse(DECIDE).body[0])
+                tests = loop_tests(st.test)
                 order.append(".decide")
                 continue
             if isinstance(st, ast.If) and ast.unparse(st.test) == "accepted":
@@ -145,6 +276,8 @@ def translate(repo=None):
                 order.append(".checkpoint")
                 continue
             raise Unrecognised("statement in the loop body: " + src.splitlines()[0][:80])
+        op_returns = operator_failure_returns()
+        mdefaults = mutable_defaults()
     except Unrecognised as e:
         notes.append(str(e))
     except Exception as e:
@@ -161,6 +294,14 @@ def translate(repo=None):
              f"def decideBlockOk : Bool := {'true' if decide_ok else 'false'}",
              "/-- the accept / restore block has exactly the shape `TT.C15.mcmcStep` mirrors -/",
              f"def acceptBlockOk : Bool := {'true' if accept_ok else 'false'}", "",
+             "/-- values of `hastings_ratio` the first test of the decision block sends to rejection without evaluating -/",
+             "def loopFailureTests : List Sentinel := [" + ", ".join("." + t for t in tests) + "]", "",
+             "/-- per operator class: the non-finite constants its `_step` returns to say 'no proposal' -/",
+             "def operatorFailureReturns : List (String × List Sentinel) := ["
+             + ", ".join('("%s", [%s])' % (c, ", ".join("." + x for x in v)) for c, v in op_returns) + "]", "",
+             "/-- constructor arguments with a mutable default: (class, argument, default, the constructor mutates it) -/",
+             "def mutableDefaults : List (String × String × String × Bool) := ["
+             + ", ".join('("%s", "%s", "%s", %s)' % (c, a, d.replace('"', "'"), "true" if m_ else "false") for c, a, d, m_ in mdefaults) + "]", "",
              "end TTGen.C15_RunOrder", ""]
     return "\n".join(lines), ok, "; ".join(notes)
 
